@@ -114,6 +114,10 @@ pub fn corpus(seed: u64) -> Vec<(&'static str, Case)> {
         };
         v.push(("unfinished row writer dropped, pipelined, quit", Case::new(vec![Cmd::query(b"q1"), Cmd::query(b"q2"), Cmd::query(b"q3"), Cmd::quit()], vec![Script::Q(p(2, false, None)), Script::Q(p(1, false, Some(QOp::DropRow))), Script::Q(p(3, false, None))])));
         v.push(("unfinished binary row writer dropped, then ping, quit", Case::new(vec![Cmd::prepare(b"s"), Cmd::execute(1, &[], false), Cmd::ping(), Cmd::quit()], vec![prep(0, 2), Script::Q(p(2, true, None))])));
+        // finish_error while a complete row is pending (written with write_col, not ended): the row
+        // goes out first, then the ERR
+        v.push(("finish_error with a pending complete row, ping", Case::new(vec![Cmd::query(b"q1"), Cmd::ping(), Cmd::query(b"q2")], vec![Script::Q(p(2, false, Some(QOp::FinishErr(1105, b"gave up".to_vec())))), Script::Q(p(1, false, Some(QOp::FinishErr(1105, b"again".to_vec()))))])));
+        v.push(("binary finish_error with a pending complete row, ping", Case::new(vec![Cmd::prepare(b"s"), Cmd::execute(1, &[], false), Cmd::ping()], vec![prep(0, 2), Script::Q(p(2, true, Some(QOp::FinishErr(1105, b"gave up".to_vec()))))])));
         let mut c = rows_prog(1, 1, false, false, QOp::FinishOne);
         c.ops.push(QOp::CompleteOne(1, 2));
         c.ops.push(QOp::DropResult);
